@@ -1084,7 +1084,11 @@ impl<'a> TLVSequence<'a> {
 
             while level > 0 {
                 next = next.next_enter()?;
-                len += next.len()?;
+                // The element lengths stem from (untrusted) length fields: do not let the sum wrap
+                len = next
+                    .len()?
+                    .checked_add(len)
+                    .ok_or(ErrorCode::TLVTypeMismatch)?;
 
                 let control = next.control()?;
 
@@ -1110,8 +1114,12 @@ impl<'a> TLVSequence<'a> {
     fn len(&self) -> Result<usize, Error> {
         let control = self.control()?;
 
-        self.value_len(control).map(|value_len| {
-            1 + control.tag_type.size() + control.value_type.variable_size_len() + value_len
+        // The value length stems from an (untrusted) length field of up to 64 bits:
+        // a checked addition so that a huge value fails instead of overflowing
+        self.value_len(control).and_then(|value_len| {
+            (1 + control.tag_type.size() + control.value_type.variable_size_len())
+                .checked_add(value_len)
+                .ok_or_else(|| ErrorCode::TLVTypeMismatch.into())
         })
     }
 
@@ -1120,8 +1128,10 @@ impl<'a> TLVSequence<'a> {
     pub(crate) fn container_len(&self) -> Result<usize, Error> {
         let control = self.control()?;
 
-        self.container_value_len(control).map(|value_len| {
-            1 + control.tag_type.size() + control.value_type.variable_size_len() + value_len
+        self.container_value_len(control).and_then(|value_len| {
+            (1 + control.tag_type.size() + control.value_type.variable_size_len())
+                .checked_add(value_len)
+                .ok_or_else(|| ErrorCode::TLVTypeMismatch.into())
         })
     }
 
